@@ -16,5 +16,17 @@ p = os.path.join(V, 'DESIGN.md')
 s = open(p).read()
 s = re.sub(r'<!-- SEEDTABLE-BEGIN -->.*?<!-- SEEDTABLE-END -->',
            '<!-- SEEDTABLE-BEGIN -->\n' + '\n'.join(rows) + '\n<!-- SEEDTABLE-END -->', s, flags=re.S)
+kf = json.load(open(os.path.join(V, 'known_findings.json')))
+by = {}
+for e in kf['findings']:
+    if e['status'] == 'open':
+        by.setdefault(e['property'], []).append(e)
+frows = ['| property | open findings | examples (what fails) |', '|---|---|---|']
+for pid in sorted(by):
+    es = by[pid]
+    ex = '; '.join(sorted({e['what_fails'][:110].replace('|', '\\|').replace('\n', ' ') for e in es})[:4])
+    frows.append(f"| {pid} | {len(es)} keys | {ex} |")
+s = re.sub(r'<!-- FINDINGS-BEGIN -->.*?<!-- FINDINGS-END -->',
+           lambda _m: '<!-- FINDINGS-BEGIN -->\n' + '\n'.join(frows) + '\n<!-- FINDINGS-END -->', s, flags=re.S)
 open(p, 'w').write(s)
-print(len(rows) - 2, 'seeds')
+print(len(rows) - 2, 'seeds;', sum(len(v) for v in by.values()), 'open finding keys')
